@@ -67,6 +67,7 @@ type Engine struct {
 	pwMu    sync.Mutex
 	pw      map[*ssa.Function]map[int]bool
 	pbU     map[*ssa.Function]map[string]bool
+	nonNilG map[*ssa.Global]bool
 	implMu  sync.Mutex
 	implC   map[string][]*ssa.Function
 }
@@ -127,7 +128,7 @@ func newEngine(repo string) *Engine {
 		typeIDs: map[string]int{}, strIDs: map[string]int{}, kindIDs: map[string]int{},
 		astFiles: map[string]*ast.File{}, srcCache: map[string][]byte{},
 		derived: map[string]bool{}, inlined: map[string]bool{}, externals: map[string]bool{}, invokes: map[string]bool{}, ctUsed: map[string]bool{},
-		fnByKey: map[string]*ssa.Function{}, spkgs: map[string]*ssa.Package{}, implC: map[string][]*ssa.Function{}, pw: map[*ssa.Function]map[int]bool{}, pbU: map[*ssa.Function]map[string]bool{}}
+		fnByKey: map[string]*ssa.Function{}, spkgs: map[string]*ssa.Package{}, implC: map[string][]*ssa.Function{}, pw: map[*ssa.Function]map[int]bool{}, pbU: map[*ssa.Function]map[string]bool{}, nonNilG: map[*ssa.Global]bool{}}
 }
 
 func (e *Engine) load(patterns []string) error {
@@ -639,4 +640,59 @@ func (e *Engine) elemTypeID(t types.Type) int {
 		return 100000 + int(b.Kind())
 	}
 	return e.typeID(u)
+}
+
+// initOnlyNonNil: the global is an interface-typed package variable whose only assignments are in the package
+// initialiser and store the result of a constructor call or a freshly made interface (never nil).
+func (e *Engine) initOnlyNonNil(g *ssa.Global) bool {
+	e.implMu.Lock()
+	if v, ok := e.nonNilG[g]; ok {
+		e.implMu.Unlock()
+		return v
+	}
+	e.implMu.Unlock()
+	ok := false
+	stores := 0
+	for _, f := range e.allFnsOfPkg(g.Pkg) {
+		for _, b := range f.Blocks {
+			for _, in := range b.Instrs {
+				st, isSt := in.(*ssa.Store)
+				if !isSt || st.Addr != ssa.Value(g) {
+					continue
+				}
+				stores++
+				if !strings.HasPrefix(f.Name(), "init") {
+					stores += 100
+					continue
+				}
+				switch v := st.Val.(type) {
+				case *ssa.MakeInterface:
+					ok = true
+				case *ssa.Call:
+					if cal := v.Call.StaticCallee(); cal != nil && (cal.String() == "errors.New" || cal.String() == "fmt.Errorf") {
+						ok = true
+					} else {
+						stores += 100
+					}
+				default:
+					stores += 100
+				}
+			}
+		}
+	}
+	res := ok && stores >= 1 && stores < 100
+	e.implMu.Lock()
+	e.nonNilG[g] = res
+	e.implMu.Unlock()
+	return res
+}
+
+func (e *Engine) allFnsOfPkg(p *ssa.Package) []*ssa.Function {
+	var r []*ssa.Function
+	for _, m := range p.Members {
+		if f, ok := m.(*ssa.Function); ok {
+			r = append(r, f)
+		}
+	}
+	return r
 }
